@@ -436,7 +436,7 @@ namespace cppcms {
 		}
 		if(!d->throws) {
 			temp_buf.release();
-			output << temp_buf.c_str();
+			output.write(temp_buf.begin(),temp_buf.end()-temp_buf.begin());
 		}
 	}
 	
